@@ -53,6 +53,35 @@ Definition cells_Q (n : Z) (priors : list (Q * Q)) : list (list (Q * Q)) :=
 Definition cell1_Q (n : Z) (lohi : Q * Q) (k : Z) : Q * Q :=
   cell_Q n lohi (ml_value_Q (gs_step_size_Q n) k false).
 
+(* ---------- sharing in the perturbation model: the grid has one dimension per DISTINCT prior ----------
+   a perturbation model is its list of attribute slots (in attribute order, nested components flattened):
+   None = a fixed value, Some i = the prior with identifier i; one prior may sit in several slots
+   (perturb_model.sigma = perturb_model.centre).  prior_count = len(unique_prior_tuples). *)
+Fixpoint zmem (x : Z) (l : list Z) : bool := match l with [] => false | y :: r => Z.eqb x y || zmem x r end.
+Fixpoint slot_ids (slots : list (option Z)) : list Z :=
+  match slots with [] => [] | None :: r => slot_ids r | Some i :: r => i :: slot_ids r end.
+Fixpoint zdedup (l : list Z) : list Z :=
+  match l with [] => [] | x :: r => if zmem x r then zdedup r else x :: zdedup r end.
+Definition distinct_priors (slots : list (option Z)) : list Z := zdedup (slot_ids slots).
+Definition prior_count (slots : list (option Z)) : nat := length (distinct_priors slots).
+(* number_of_steps: an int, or a per-dimension tuple *)
+Inductive steps := StepsInt (n : Z) | StepsTuple (ns : list Z).
+(* Sensitivity.shape *)
+Definition sens_shape (st : steps) (slots : list (option Z)) : list Z :=
+  match st with StepsTuple ns => ns | StepsInt n => repeat n (prior_count slots) end.
+(* Sensitivity._lists = make_lists(perturb_model.prior_count, step_size): the float step is repeated prior_count
+   times, of a tuple the first prior_count entries are used *)
+Definition sens_model_steps (st : steps) (slots : list (option Z)) : list Z :=
+  match st with StepsTuple ns => firstn (prior_count slots) ns | StepsInt n => repeat n (prior_count slots) end.
+Definition sens_model_lists_F (st : steps) (slots : list (option Z)) := sens_lists_F (sens_model_steps st slots).
+Definition sens_model_lists_Q (st : steps) (slots : list (option Z)) := sens_lists_Q (sens_model_steps st slots).
+(* the mutant: one shape entry per attribute holding a prior *)
+Definition sens_shape_per_attribute (st : steps) (slots : list (option Z)) : list Z :=
+  match st with StepsTuple ns => ns | StepsInt n => repeat n (length (slot_ids slots)) end.
+(* GridSearch: grid_priors = sort(set(grid_priors)) -- the argument may name one prior several times *)
+Definition gs_dimensions (grid_prior_ids : list Z) : nat := length (zdedup grid_prior_ids).
+Definition gs_shape (n : Z) (grid_prior_ids : list Z) : list Z := repeat n (gs_dimensions grid_prior_ids).
+
 (* ---------- the grid-search / sensitivity OBJECT used several times (Machine.v) ----------
    GridSearch: step count n : Z; a use is applied to the limits of the grid priors; the lattice is
    GridSearch.make_lists, the cells are make_arguments with the LIVE step size over that lattice.
@@ -167,6 +196,8 @@ Inductive case :=
 | CSensCells (ls : float) (ns : list Z) (expected : list (list (float * float)))
 | CSensLists (ns : list Z) (expected : list (list float)) (shape : list Z)
 | CSensSorted (arrivals : list Z) (expected : list Z)
+| CSensModel (st : steps) (slots : list (option Z)) (shape : list Z) (cells : Z) (rows : list Z)
+| CGridDims (n : Z) (grid_prior_ids : list Z) (shape : list Z) (cells : Z) (rows : list Z)
 (* one object, several uses: every answer of the history, in order *)
 | CHistory (n0 : Z) (ops : list (@op Z (list (float * float)))) (expected : list (@out float (float * float)))
 | CSensHistory (ns0 : list Z) (ops : list (@op (list Z) float)) (expected : list (@out float (float * float))).
@@ -200,6 +231,14 @@ Definition check_case (c : case) : bool :=
       list_eqb (list_eqb Bool.eqb) (rb_progress total [] (map (fun k => (k, tt)) arrivals)) e
   | CSensCells ls ns e => list_eqb (list_eqb pair_eqb) (sens_cell_units_F ls ns) e
   | CSensLists ns e shape => list_eqb flist_eqb (sens_lists_F ns) e && list_eqb Z.eqb ns shape
+  | CSensModel st slots shape cells rows =>
+      list_eqb Z.eqb (sens_shape st slots) shape && Z.eqb (Z.of_nat (length (sens_model_lists_F st slots))) cells
+      && list_eqb Z.eqb (map (fun r => Z.of_nat (length r)) (sens_model_lists_F st slots)) rows
+      && Z.eqb (fold_right Z.mul 1%Z shape) cells
+  | CGridDims n ids shape cells rows =>
+      list_eqb Z.eqb (gs_shape n ids) shape && Z.eqb (Z.of_nat (length (grid_lists_F (gs_dimensions ids) n))) cells
+      && list_eqb Z.eqb (map (fun r => Z.of_nat (length r)) (grid_lists_F (gs_dimensions ids) n)) rows
+      && Z.eqb (fold_right Z.mul 1%Z shape) cells
   | CSensSorted arrivals e => list_eqb Z.eqb (map fst (sens_collect (map (fun k => (k, tt)) arrivals))) e
   | CHistory n0 ops e => list_eqb out_eqb (gs_run_F code_policy n0 ops) e
   | CSensHistory ns0 ops e => list_eqb out_eqb (sens_run_F code_policy ns0 ops) e
